@@ -3515,9 +3515,14 @@ class NameCheckVisitor(node_visitor.ReplacingNodeVisitor):
             constraint = AndConstraint.make(reversed(out_constraints))
             return annotate_with_constraint(out, constraint)
         else:
-            # For OR conditions, no need to add a constraint here; we'll
-            # return a Union and extract_constraints() will combine them.
-            return out
+            # The value of an `or` is falsy only if every operand is falsy, so
+            # unlike for an arbitrary union, all inverted constraints hold in
+            # that case: state the disjunction explicitly instead of leaving it
+            # to the constraints carried by the members of the union.
+            out = unite_values(*[_without_constraints(val) for val in values])
+            if definite_value is not None:
+                out = annotate_value(out, [DefiniteValueExtension(definite_value)])
+            return annotate_with_constraint(out, OrConstraint.make(out_constraints))
 
     def visit_Compare(self, node: ast.Compare) -> Value:
         nodes = [node.left, *node.comparators]
@@ -6127,6 +6132,14 @@ def _has_annotation_for_attr(typ: type, attr: str) -> bool:
 
 def _is_asynq_future(value: Value) -> bool:
     return value.is_type(asynq.FutureBase) or value.is_type(asynq.AsyncTask)
+
+
+def _without_constraints(value: Value) -> Value:
+    """Drop the constraints carried by a value and by the members of a union."""
+    value, _ = unannotate_value(value, ConstraintExtension)
+    if isinstance(value, MultiValuedValue):
+        return unite_values(*[_without_constraints(val) for val in value.vals])
+    return value
 
 
 def _extract_definite_value(val: Value) -> Optional[bool]:
